@@ -82,8 +82,19 @@ def harness(L, sw, ch, sr, K, mode, via):
         try:
             if via == "function":
                 regs = list(core.split(data, sr=sr, sw=sw, ch=ch, **kw))
-            else:
+            elif via == "method":
                 regs = list(core.AudioRegion(data, sr, sw, ch).split(**kw))
+            else:
+                # an AudioRegion that carries its own start time (it came out of an earlier split) and a caller who also passes
+                # audio parameters: the region's own format wins and times are counted from the beginning of the input
+                st = I("in_start")
+                e.assume(st >= 0)
+                reg_in = core.AudioRegion(data, sr, sw, ch, start=SymRat(st, 1000))
+                other = dict(sampling_rate=sr + 1, channels=ch + 1, sample_width=(4 if sw != 4 else 2)) if via == "region+kwargs" else {}
+                if e.choose(2):
+                    regs = list(core.split(reg_in, **other, **kw))
+                else:
+                    regs = list(reg_in.split(**other, **kw))
         except Exception as ex:
             return now(e, "split raised %s: %s" % (type(ex).__name__, str(ex)[:80]), D, B, P, calls, meta)
         conds = {}
@@ -219,7 +230,17 @@ def concrete_split(ak, c, data, via=None, extra=None):
     if extra:
         kw.update(extra)
     try:
-        if (via or c.get("via")) == "method":
+        v_ = via or c.get("via")
+        if v_ in ("region+kwargs", "region+start"):
+            other = dict(sampling_rate=sr + 1, channels=ch + 1, sample_width=(4 if sw != 4 else 2)) if v_ == "region+kwargs" else {}
+            reg_in = ak.AudioRegion(data, sr, sw, ch, start=2.5)
+            regs = list(ak.split(reg_in, **other, **kw))
+            calls2 = list(calls)
+            del calls[:]
+            regs2 = list(reg_in.split(**other, **kw))
+            if [(r.start, r.data, r.sr, r.sw, r.ch) for r in regs] != [(r.start, r.data, r.sr, r.sw, r.ch) for r in regs2]:
+                regs = regs2
+        elif v_ == "method":
             regs = list(ak.AudioRegion(data, sr, sw, ch).split(**kw))
         else:
             regs = list(ak.split(data, sr=sr, sw=sw, ch=ch, **kw))
@@ -290,6 +311,7 @@ def run(rep):
     for i, (sw, ch) in enumerate(fm):
         for mode in (tok.MODES if (i == 0 or tier == "thorough") else (tok.MODES[i % 4],)):
             cfgs.append((sw, ch, byt.rates(tier)[i % 2], mode, "function" if i % 2 == 0 else "method"))
+    cfgs += [(2, 1, 10, 0, "region+kwargs"), (1, 2, 10, 4, "region+start")]
     if tier == "thorough":
         cfgs += [(2, 1, 16000, m, "method") for m in tok.MODES]
     for (sw, ch, sr, mode, via) in cfgs:
